@@ -60,10 +60,20 @@ pub fn validate_trace(w: &World, trace: &[taffy::verif_hooks::Event]) -> Vec<Str
             Event::Hidden { node } => {
                 hidden_depth.push(*node);
             }
-            Event::SetLayout { .. } => {}
+            Event::SetLayout { .. } => {
+                // NoScribble (NOT assumed by the theorems, recorded as evidence of the known finding): a stored layout written
+                // while some enclosing evaluation only computes a size
+                if stack.iter().any(|e| e.1 == RunMode::ComputeSize) {
+                    SCRIBBLES.with(|c| c.set(c.get() + 1));
+                }
+            }
         }
     }
     bad
+}
+
+thread_local! {
+    pub static SCRIBBLES: std::cell::Cell<u64> = const { std::cell::Cell::new(0) };
 }
 
 pub fn run_history(seed: u64, idx: u64, emit: bool) -> (Vec<i64>, Vec<i64>, Vec<String>, u64) {
@@ -167,6 +177,7 @@ pub fn main(args: &[String]) {
                 }
             }
             println!("TRACES {passes} {nbad}");
+            println!("SCRIBBLES {}", SCRIBBLES.with(|c| c.get()));
         }
         _ => std::process::exit(2),
     }
